@@ -36,6 +36,11 @@ type Op struct {
 	// "timeout" (WithTimeoutOps, large), "interim" (WithInterimPromptPattern that matches nothing),
 	// "priv" (WithPrivilegeLevel("configuration"), config APIs only). Empty = canonical order.
 	Opts []string `json:"opts"`
+	// Repeat describes the repetition overlay applied to the command list ("" = none):
+	// "identical" (same command text and byte-identical output at several positions),
+	// "same-text" (same command text, outputs differ), "same-out" (different texts, identical
+	// output), followed by the positions, e.g. "identical:1,2,4".
+	Repeat string `json:"repeat,omitempty"`
 }
 
 func isGenericOpt(n string) bool { return n == "fwc" || n == "stop" }
@@ -714,7 +719,83 @@ func buildOp(r *rand.Rand, s *Session, o Op, pattern string, p []string, unliste
 	for i := 0; i < len(pattern); i++ {
 		o.Cmds = append(o.Cmds, g.genCmd(i, pattern[i]))
 	}
+	applyRepeat(r, &o, pattern)
 	return o
+}
+
+// applyRepeat overlays repeated commands on about a third of the lists of length >= 2: a source
+// command is copied to 1-3 other positions (adjacent to it or apart). Outputs are only copied
+// between positions with the same pattern letter, so the enumerated fail pattern is unchanged
+// (the reference depends on the output only).
+func applyRepeat(r *rand.Rand, o *Op, pattern string) {
+	n := len(o.Cmds)
+	if n < 2 || r.Intn(3) != 0 {
+		return
+	}
+	kind := []string{"identical", "identical", "identical", "same-text", "same-out"}[r.Intn(5)]
+	j := r.Intn(n)
+	var cand []int
+	for k := 0; k < n; k++ {
+		if k != j && (kind == "same-text" || pattern[k] == pattern[j]) {
+			cand = append(cand, k)
+		}
+	}
+	if len(cand) == 0 {
+		kind = "same-text"
+		for k := 0; k < n; k++ {
+			if k != j {
+				cand = append(cand, k)
+			}
+		}
+	}
+	cnt := 1 + r.Intn(3)
+	if cnt > len(cand) {
+		cnt = len(cand)
+	}
+	if r.Intn(2) == 0 {
+		// prefer the positions closest to the source (adjacent repeats)
+		for a := 0; a < len(cand); a++ {
+			for b := a + 1; b < len(cand); b++ {
+				da, db := cand[a]-j, cand[b]-j
+				if da < 0 {
+					da = -da
+				}
+				if db < 0 {
+					db = -db
+				}
+				if db < da {
+					cand[a], cand[b] = cand[b], cand[a]
+				}
+			}
+		}
+	} else {
+		r.Shuffle(len(cand), func(a, b int) { cand[a], cand[b] = cand[b], cand[a] })
+	}
+	pos := []int{j}
+	for _, k := range cand[:cnt] {
+		switch kind {
+		case "identical":
+			o.Cmds[k] = Cmd{Text: o.Cmds[j].Text, Out: append([]devsim.Token(nil), o.Cmds[j].Out...), Mark: o.Cmds[j].Mark}
+		case "same-text":
+			o.Cmds[k].Text = o.Cmds[j].Text
+		case "same-out":
+			o.Cmds[k].Out = append([]devsim.Token(nil), o.Cmds[j].Out...)
+			if o.Cmds[j].Mark == "d:echo-only" {
+				o.Cmds[k].Mark = "n"
+			} else {
+				o.Cmds[k].Mark = o.Cmds[j].Mark
+			}
+		}
+		pos = append(pos, k)
+	}
+	for a := 0; a < len(pos); a++ {
+		for b := a + 1; b < len(pos); b++ {
+			if pos[b] < pos[a] {
+				pos[a], pos[b] = pos[b], pos[a]
+			}
+		}
+	}
+	o.Repeat = kind + ":" + strings.Trim(strings.ReplaceAll(fmt.Sprint(pos), " ", ","), "[]")
 }
 
 // Gen builds the case list: a pure function of (tier, seed).
